@@ -222,6 +222,8 @@ def conv_shard(rec, k, nshards, maxlen):
     extra = [
         "2021-03-07", "2021-13-45", "0000-01-01", "2020-02-29", "2021-02-29", "2021-1-01", "2021-03-7", "2021-3-7", "2021-03-007", "21-03-07", "٢٠٢١-٠٣-٠٧", "2021-03-07\n",
         "90478484-0988-45fc-91fe-757d90136892", "90478484-0988-45FC-91fe-757d90136892", "90478484098845fc91fe757d90136892",
+        "9047848-40988-45fc-91fe-757d90136892", "----90478484098845fc91fe757d90136892", "90478484098845fc91fe757d90136892----", "90478484--098845fc-91fe-757d90136892",
+        "90478484-0988-45fc-91fe-757d9013689-", "-0478484-0988-45fc-91fe-757d90136892", "90478484-0988-45fc-91fe-757d9013689", "90478484-0988-45fc-91fe-757d901368922",
         "9047848a-0988-45fc-91fe-757d90136892", "9047848A-0988-45fc-91fe-757d90136892", "9047848a-098B-45fc-91fe-757d90136892",
         "9047848a-0988-45fc-91FE-757d90136892", "9047848a-0988-45fc-91fe-757D90136892", "9047848a-0988-45fc-91fe-757d9013689",
         "{9047848a-0988-45fc-91fe-757d90136892}", "urn:uuid:9047848a-0988-45fc-91fe-757d90136892", "9047848g-0988-45fc-91fe-757d90136892",
@@ -292,7 +294,7 @@ def sample_language(draw, typ):
 
 
 MUTATIONS = ["none", "none", "extra-segment", "missing-char", "empty-segment", "trailing-slash", "trailing-newline", "unicode-digit",
-             "upper", "dot", "letter-in-number", "bad-date", "literal-char", "unrelated", "huge-int", "prefix-junk", "suffix-junk"]
+             "upper", "dot", "letter-in-number", "bad-date", "bad-uuid", "literal-char", "unrelated", "huge-int", "prefix-junk", "suffix-junk"]
 
 
 @st.composite
@@ -348,6 +350,18 @@ def table_case(draw):
         for tok, val in zip(base, parts):
             if tok[0] == "p" and tok[2] == "date":
                 path = path.replace(val, draw(st.sampled_from(["2021-13-45", "0000-01-01", "2021-02-30", "2021-00-10", "2021-03-7", "2021-3-07", "2021-3-7", "202-03-07", "2021-03-007", "2021-003-07", "21-03-07", "2021/03/07", "2021-03-07T00", "+021-03-07", "2021-03--7", "2021-03-0٧"])), 1)
+    elif mutation == "bad-uuid":
+        # same 36 characters, hyphens or groups in the wrong place / other near-misses of the canonical form
+        for tok, val in zip(base, parts):
+            if tok[0] == "p" and tok[2] == "uuid" and len(val) == 36:
+                h = val.replace("-", "")
+                bad = draw(st.sampled_from([
+                    h[:7] + "-" + h[7:12] + "-" + h[12:16] + "-" + h[16:20] + "-" + h[20:],  # first hyphen one place early
+                    "----" + h, h + "----", h[:8] + "--" + h[8:12] + h[12:16] + "-" + h[16:20] + "-" + h[20:],
+                    h[:8] + "-" + h[8:12] + "-" + h[12:16] + "-" + h[16:20] + "-" + h[20:31] + "-",
+                    "{" + val[1:-1] + "}", val[:-1], val + "0", h, "urn:uuid:" + val, val.replace("-", "_", 1), val[:8] + "-" + val[8:].replace("-", "", 1) + "-",
+                ]))
+                path = path.replace(val, bad, 1)
     elif mutation == "literal-char":
         lits = [tok[1] for tok in base if tok[0] == "lit" and len(tok[1]) > 1]
         if lits:
